@@ -336,6 +336,7 @@ def main():
     seed = int(os.environ.get("VERIF_SEED", "0"))
     rnd = random.Random(seed)
     torch.manual_seed(seed)
+    torch.set_num_threads(1)          # tiny tensors: the thread pool only costs time
     gen = torch.Generator().manual_seed(20260922 + seed)
     from emu_mps.utils import _determine_cutoff_index, split_matrix
     if "_determine_cutoff_index" in ob:
@@ -387,10 +388,10 @@ def main():
         print("NOT-REPRODUCED: 3000 random matrices satisfy shape, cap, error-budget and isometry clauses")
         return 0
     # ---- MPS level: the property-level falsifier, most relevant operation first -----------------
-    plan = [("truncate_impl", lambda: falsify_truncate_impl(rnd, gen, 250)),
-            ("MPS.truncate", lambda: falsify_mps_truncate(rnd, gen, 250)),
-            ("MPS.orthogonalize", lambda: falsify_orthogonalize(rnd, gen, 120)),
-            ("scaling", lambda: falsify_scaling(rnd, gen, 60))]
+    plan = [("truncate_impl", lambda: falsify_truncate_impl(rnd, gen, 1000)),
+            ("MPS.truncate", lambda: falsify_mps_truncate(rnd, gen, 1000)),
+            ("MPS.orthogonalize", lambda: falsify_orthogonalize(rnd, gen, 400)),
+            ("scaling", lambda: falsify_scaling(rnd, gen, 200))]
     first = [p for p in plan if p[0] in ob] or []
     if any(x in ob for x in ("MPS.norm", "MPS.apply")):
         first = [plan[2]]
